@@ -29,9 +29,12 @@ vc = importlib.util.module_from_spec(spec)
 loader.exec_module(vc)
 NPROC = int(os.environ.get("VERIF_WORKERS", "16"))
 GOENV = dict(os.environ, GOFLAGS="-mod=mod", GOPROXY="off", GOSUMDB="off")
-FILES = ["gcp_balancer.go", "gcp_picker.go", "gcp_interceptor.go", "gcp_multiendpoint.go", "multiendpoint/multiendpoint.go"]
+FILES = os.environ.get("MUT_FILES", "").split() or ["gcp_balancer.go", "gcp_picker.go", "gcp_interceptor.go", "gcp_multiendpoint.go", "multiendpoint/multiendpoint.go"]
 ALLOC = [("poolsim", p, 35) for p in vc.POOL_PROFILES] + [("mesim", "me0", 20), ("mesim", "med", 20), ("mesim", "me", 20),
                                                           ("gmesim", "gme", 25), ("gmesim", "gmebad", 20), ("streamsim", "stream", 50)]
+if NPROC < len(ALLOC):
+    # fewer workers than (engine, profile) pairs: every engine first
+    ALLOC = [("streamsim", "stream", 50), ("gmesim", "gmebad", 20), ("gmesim", "gme", 25), ("mesim", "me", 20)] + [a for a in ALLOC if a[0] == "poolsim"] + ALLOC
 known = {k["sig"] for k in vc.load_known().get("findings", [])}
 mut = os.path.join(VERIF, "bin", "mutate")
 
